@@ -218,6 +218,21 @@ def make_raises(repo: Repo, decode_set: Set[str], action_set: Optional[Set[str]]
             a = ast.parse(term_of(call.args[0]), mode='eval').body
         except SyntaxError:
             return False
+        if isinstance(a, (ast.Name, ast.Attribute)):
+            # the buffer itself, on a path that has established a minimum length (``len(buf) < N`` was false, N > i) -- or, for
+            # byte 0, that the buffer is not empty
+            b_, i_ = ast.unparse(a), call.args[1].value
+            import re as _re
+            for cn in state.conds:
+                m_ = _re.match(r'^-len\((.+)\) < (\d+)$', cn) or _re.match(r'^\+len\((.+)\) >= (\d+)$', cn)
+                if m_ and m_.group(1) == b_ and int(m_.group(2)) > i_ >= 0:
+                    return True
+                m_ = _re.match(r'^-len\((.+)\) <= (\d+)$', cn) or _re.match(r'^\+len\((.+)\) > (\d+)$', cn)
+                if m_ and m_.group(1) == b_ and int(m_.group(2)) >= i_ >= 0:
+                    return True
+                if i_ == 0 and cn in ('+' + b_, '-not ' + b_):
+                    return True
+            return False
         if not (isinstance(a, ast.Subscript) and isinstance(a.slice, ast.Slice) and a.slice.lower is None and a.slice.upper is not None
                 and a.slice.step is None):
             return False
@@ -234,8 +249,18 @@ def make_raises(repo: Repo, decode_set: Set[str], action_set: Optional[Set[str]]
         if 'IndexError' in out:
             idx_calls = [c_ for c_ in calls_in(node) if term_of(c_.func) in ('six.indexbytes', 'indexbytes')]
             others = [c_ for c_ in calls_in(node) if c_ not in idx_calls]
+            def without_idx(n_):
+                import copy as _copy
+                ids = {(getattr(c_, 'lineno', 0), getattr(c_, 'col_offset', 0), ast.dump(c_)) for c_ in idx_calls}
+
+                class R(ast.NodeTransformer):
+                    def visit_Call(self_, x):
+                        if (getattr(x, 'lineno', 0), getattr(x, 'col_offset', 0), ast.dump(x)) in ids:
+                            return ast.copy_location(ast.Constant(value=0), x)
+                        return self_.generic_visit(x)
+                return R().visit(_copy.deepcopy(n_))
             if idx_calls and all(known_long_enough(c_, term_of, state) for c_ in idx_calls) \
-                    and 'IndexError' not in [x for c_ in others for x in node_raises(c_, term_of, fold)]:
+                    and 'IndexError' not in [x for c_ in others for x in node_raises(without_idx(c_), term_of, fold)]:
                 out = [x for x in out if x != 'IndexError']
         for call in calls_in(node):
             callee = term_of(call.func)
